@@ -295,9 +295,75 @@ def r13d(ctx, P):
 THOROUGH_FEATURES = ['r13d']
 
 
+def r13e(ctx, P):
+    rid = "R13.e"
+    import re
+    from sa.rules.common import chain_filters
+    ctx.rule(rid, "EVERY SEGMENT IS VISITED (aggregations are computed over all matches, whatever the page): in IndexReader::search the "
+                  "loop that runs the per-segment search iterates `self.segments` itself — no element-dropping adapter (skip, take, "
+                  "filter, step_by, ...) in the iterator chain — and the per-segment search call is not controlled by a test on "
+                  "anything derived from the cursor (other than error exits)")
+    f = P.fn(SEARCH) if "SEARCH" in globals() else P.fn(N.READER + "::search")
+    if not ctx.anchor(rid, f, "IndexReader::search"):
+        return
+    ctx.saw(f)
+    sl = Slice(f, through_all_calls=True)
+    sl0 = Slice(f)
+    seg_calls = [(b, t) for b, t in f.calls() if callee_of(t) in (N.READER + "::search_segment", N.READER + "::scan_segment")]
+    if not ctx.anchor(rid, seg_calls, "per-segment search call in IndexReader::search"):
+        return
+    loops = natural_loops_local(f)
+    n = 0
+    for b, t in seg_calls:
+        mine = [(h, body) for h, body in loops if b in body]
+        # the loop is driven by Iterator::next over something derived from self.segments
+        drv = None
+        for h, body in sorted(mine, key=lambda hb: len(hb[1])):
+            for nb in body:
+                nt = f.blocks[nb]["term"]
+                if nt["k"] == "call" and callee_of(nt).endswith("Iterator>::next") and any("ForLoop" in m for m in (nt.get("macros") or [])):
+                    if "segments" in sl.fields(nt["args"][0]):
+                        drv = (nb, nt)
+            if drv:
+                break
+        if not ctx.anchor(rid, drv, "for loop over self.segments around the per-segment search"):
+            continue
+        n += 1
+        nb, nt = drv
+        drops = chain_filters(P, f, nt["args"][0])
+        ctx.ob(rid, "%s:search:iterates-all-segments" % rid, not drops,
+               "the per-segment search runs for every element of self.segments" if not drops else
+               "the loop over the segments drops elements (Iterator::%s at %s): segments that are not searched contribute nothing to "
+               "aggregations, so their result depends on the page" % (drops[0][0], Site(f, drops[0][1]).loc()),
+               Site(f, drops[0][1]).loc() if drops else Site(f, nb).loc())
+        bad = []
+        loop_body = next(body for h, body in sorted(mine, key=lambda hb: len(hb[1])) if nb in body)
+        for (a, succ) in f.control_deps_transitive(b):
+            ta = f.blocks[a]["term"]
+            # only tests made per segment (inside the loop): what is decided before the loop holds for all segments alike
+            if ta["k"] != "switch" or a == f.blocks[nb]["term"].get("target") or a not in loop_body:
+                continue
+            if any("ForLoop" in m or "QuestionMark" in m for m in (ta.get("macros") or [])) or _is_error_exit_test(f, a):
+                continue
+            flds = sl.fields(ta["on"])
+            if flds & {"cursor"} or any((f.locals[l_].get("name") or "").startswith(("cursor", "saw_cursor")) for l_ in sl.locals(ta["on"])):
+                bad.append(Site(f, a))
+        ctx.ob(rid, "%s:search:segment-search-independent-of-cursor" % rid, not bad,
+               "whether a segment is searched does not depend on the cursor" if not bad else
+               "the per-segment search at %s is controlled by a cursor-derived test at %s" % (Site(f, b).loc(), bad[0].loc()),
+               bad[0].loc() if bad else Site(f, b).loc())
+    ctx.floor(rid, n, 1, "per-segment search calls inside the segment loop")
+
+
+def natural_loops_local(f):
+    from sa.rules.C25 import natural_loops
+    return natural_loops(f)
+
+
 def run(ctx, progs):
     P = progs.get("default")
     r13a(ctx, P)
+    r13e(ctx, P)
     r13d(ctx, P)
     ctx.rule("R13.b", "GUARD: no pruning and no heap-gated collection while a collector is attached (= R09.b collector half and R09.c)")
     sub = type(ctx)(ctx.pid, ctx.tier)
